@@ -143,6 +143,18 @@ CHECKS = {
             'Trusts the per-handle model; fixed tree layout with identifier names; singletons judged by the '
             'load counter.',
             'DESIGN.md section 3 / C12'),
+    'C15': ('exploration',
+            'property-based testing (Hypothesis): generated world descriptions (dict and JSON file drivers) '
+            'with references into a fixture module and a generated resource tree; oracle = independent '
+            'reference interpretation of the description',
+            'Randomised search with shrinking over descriptions (processors, entities, optional ids, args and '
+            'kwargs from a pool of JSON values incl. near-miss marker strings, ${..}/$res{..}/$handle{..} '
+            'references, world handle stored at depth 1-3); the loaded world is compared with the reference '
+            'interpretation: processor types in order, entities, constructor arguments (identity for '
+            'references), disabled on return, callback order after enabling.',
+            'Whole-string top-level references only; ids outside the automatic range; fixture types in '
+            'fixtures/verif_fixtures.py.',
+            'DESIGN.md section 3 / C15'),
     'C16': ('exploration',
             'property-based testing (Hypothesis): generated file trees materialised in a temp dir, generated '
             'rules / options / repeated calls, differential oracle = independent os.walk reference producing '
